@@ -451,6 +451,18 @@ static int next_token(ts_parser_state_t *tpsp, uint32_t flags)
 		}
 		break;
 
+	    case 19:
+		/*
+		 * This is the keyword of the Touchstone 2.0 specification;
+		 * "[Two-Port Order]" above is what earlier versions of this
+		 * library wrote.
+		 */
+		if (strcmp(tpsp->tps_text, "TWO-PORT DATA ORDER") == 0) {
+		    tpsp->tps_token = T_KW_TWO_PORT_ORDER;
+		    return 0;
+		}
+		break;
+
 	    case 21:
 		if (strcmp(tpsp->tps_text, "NUMBER OF FREQUENCIES") == 0) {
 		    tpsp->tps_token = T_KW_NUMBER_OF_FREQUENCIES;
